@@ -797,8 +797,33 @@ func c14Gen(r *rand.Rand, cfg c14Cfg) *c14Gram {
 		if bad() && nGlob > 0 {
 			avail = append(avail, r.Intn(nGlob))
 		}
+		// make the value of a lookahead flag visible: `[L] 't'` / `[!L] 't'` with a terminal-only body
+		for _, l := range usesLA[n] {
+			if r.Intn(10) < 7 {
+				pr := &c14Pred{Op: 'E', P: l, V: 1}
+				txt := g.Params[l].Name
+				if r.Intn(3) == 0 {
+					pr = &c14Pred{Op: 'N', Sub: []*c14Pred{pr}}
+					txt = "!" + txt
+				}
+				alt := c14Alt{Pred: pr, PredText: txt}
+				for k, ln := 0, 1+r.Intn(2); k < ln; k++ {
+					alt.RHS = append(alt.RHS, c14Sym{Term: 1 + r.Intn(g.NT-1)})
+				}
+				nt.Alts = append(nt.Alts, alt)
+				g.Feat["pred"] = true
+			}
+		}
 		for a := 0; a < nAlts; a++ {
 			var alt c14Alt
+			if a == nAlts-1 && r.Intn(5) != 0 {
+				// a productive base case: terminals only, no predicate
+				for k, ln := 0, 1+r.Intn(2); k < ln; k++ {
+					alt.RHS = append(alt.RHS, c14Sym{Term: 1 + r.Intn(g.NT-1)})
+				}
+				nt.Alts = append(nt.Alts, alt)
+				continue
+			}
 			if len(avail) > 0 && r.Intn(5) < 3 {
 				alt.Pred, alt.PredText = c14GenPred(r, g, avail)
 				g.Feat["pred"] = true
@@ -1036,7 +1061,8 @@ func c14(c *Ctx) {
 	findings := os.Getenv("VERIF_FINDINGS") != ""
 	c.Rule = "templated .tm grammars generated at index level and rendered as text: 2-4 terminals, 2-6 nonterminals (1-2 inputs, with and without no-eoi), " +
 		"0-2 global %flag parameters (no default / = true / = false), 0-2 %lookahead flags, 0-2 inline `flag X [= v]` parameters per nonterminal with names shared " +
-		"between nonterminals (propagation by name), 1-3 alternatives of 0-3 symbols, predicates `P`, `!P`, `P == \"v\"`, `P != \"v\"` (v in true/false/x) combined with " +
+		"between nonterminals (propagation by name), 1-3 alternatives of 0-3 symbols (the last one a predicate-free terminal-only base case in 4 of 5 nonterminals so that most " +
+		"nonterminals are productive; nonterminals that look at a lookahead flag mostly get a terminal-only alternative guarded by the flag), predicates `P`, `!P`, `P == \"v\"`, `P != \"v\"` (v in true/false/x) combined with " +
 		"&& and || (3/5 of the alternatives of parametrized nonterminals), references with arguments `+P`, `~P`, `P: true|false`, `P: Q`, `P`, omitted (propagated by name " +
 		"or defaulted), lookahead arguments placed preferably where the flag can be used; a small fraction of deliberately invalid choices (undeclared parameter in a " +
 		"predicate, parametrized input, uninitialized parameter, unusable lookahead argument, nullable nonterminal on a lookahead path). Each grammar is compiled by the real " +
